@@ -8,8 +8,8 @@ def rd(p):
 out = ["# Last full validation run", "",
        "Produced by `tools/validate_all.sh` (logs in `build/`, not committed) and summarised by `tools/mkvalidation.py`.", ""]
 head = subprocess.run(["git", "-C", "/repo", "rev-parse", "--short", "HEAD"], capture_output=True, text=True).stdout.strip()
-vh = subprocess.run(["git", "-C", R, "rev-parse", "--short", "HEAD"], capture_output=True, text=True).stdout.strip()
-out += ["* /repo HEAD: `%s`; /verif HEAD when summarised: `%s`; %s" % (head, vh, time.strftime("%Y-%m-%d %H:%M")), ""]
+vh = os.environ.get("VALIDATION_COMMIT") or subprocess.run(["git", "-C", R, "rev-parse", "--short", "HEAD"], capture_output=True, text=True).stdout.strip()
+out += ["* /repo HEAD: `%s`; /verif commit validated: `%s`; %s" % (head, vh, time.strftime("%Y-%m-%d %H:%M")), ""]
 sw = rd("sweep_q123.log")
 runs = [l for l in sw if l.startswith("seed=")]
 bad = [l for l in runs if " rc=0 " not in l]
